@@ -435,7 +435,7 @@ pub fn main(ctx: &Ctx) -> i32 {
             while idx < total {
                 let ops = nth_ops(len, idx);
                 sequential_case(ctx, &ops, idx);
-                if idx % 997 == 0 && len >= 3 {
+                if (idx % 997 == 0 && len >= 3) || (ctx.want_sample() && len >= 2) {
                     ctx.sample(json!({"sequential_ops": format!("{:?}", ops)}));
                 }
                 idx += nw;
